@@ -13,7 +13,8 @@ TRUSTED_BASE = [
 ASSUMPTIONS = ["source-to-model tie is differential testing"]
 RULE = ("pairs of URL programs: identical, ''-vs-'/' path under an authority, explicit default port, one component "
         "changed, other construction route (build, encoded=True, modifier chain); all five operators and hash in both "
-        "orders; triples for transitivity; distinct = distinct pair; non-trivial = the two programs differ")
+        "orders; triples for transitivity; pairs with two differences at once (an earlier component equal only under the normalisation, a later "
+        "one different); distinct = distinct pair; non-trivial = the two programs differ")
 
 
 def variants(rng, s):
